@@ -31,8 +31,9 @@ def contract(prop, name=None, targets=(), instances=((),), canary=False, opts=No
     """Register a contract.  `targets`: functions of the repository put under contract by it.
     `instances`: list of parameter tuples (finite dispatch enumeration: classes, table keys ...)."""
     def deco(fn):
-        REGISTRY.append(Contract(fn, prop, name or fn.__name__, tuple(targets), [tuple(i) if isinstance(i, (tuple, list)) else (i,) for i in instances],
-                                 canary, opts, bounded_only, note, cross))
+        for pr in ((prop,) if isinstance(prop, str) else tuple(prop)):
+            REGISTRY.append(Contract(fn, pr, name or fn.__name__, tuple(targets), [tuple(i) if isinstance(i, (tuple, list)) else (i,) for i in instances],
+                                     canary, opts, bounded_only, note, cross))
         return fn
     return deco
 
